@@ -139,6 +139,7 @@ structure Port where
   name : String
   dir : Dir
   ty : Ty
+  init : Option Expr := none          -- default expression `:= …` (initial value of the port's drivers)
   deriving Repr, Inhabited
 
 /-- one association of a port map. `formalConv`: `UNSIGNED(formal) => actual`; the actual is an expression (a name, a name under a
